@@ -659,7 +659,7 @@ impl<A: Container> Exec<A> {
             Op::Resize(k, li) => {
                 let Some(i) = pick(*k) else { return Ok(()) };
                 let n = BYTES_LENGTHS[li % BYTES_LENGTHS.len()];
-                let fillv = 1 + (stepno % 200) as u8;
+                let fillv = if (stepno + li) % 4 == 0 { 0 } else { 1 + (stepno % 200) as u8 }; // zero fill too: a zero-fill grow must really write zeros
                 let is_locked = matches!(self.regs[i].0, Reg::L(_));
                 let mut pre: Option<bool> = None;
                 if is_locked && self.refusing_now() {
@@ -907,7 +907,31 @@ impl serde::Serialize for BytesLike<'_> {
     }
 }
 
+/// many simultaneously live heap containers (more than any fixed-size bookkeeping table would hold), some of them
+/// grown (reallocation) or truncated while the others are alive, then all dropped
+fn burst(which: usize) -> Result<(), String> {
+    let n = [70usize, 140, 300][which % 3];
+    let mut live: Vec<HeapBytes> = Vec::with_capacity(n);
+    for i in 0..n {
+        let len = 1 + (i * 37 + which) % 700;
+        let mut h = HeapBytes::default();
+        h.resize(len, 0);
+        h.as_mut_slice().copy_from_slice(&pattern(100, i, len));
+        live.push(h);
+    }
+    live[n / 2].resize(5000, 7);
+    live[n - 1].resize(3, 0);
+    live[n - 2].resize(0, 0);
+    while let Some(h) = live.pop() {
+        drop(h);
+    }
+    Ok(())
+}
+
 fn high_level(which: usize, f: &mut Fill) -> Result<(), String> {
+    if which >= 100 {
+        return burst(which);
+    }
     use dryoc::dryocbox::DryocBox;
     use dryoc::dryocsecretbox::DryocSecretBox;
     use dryoc::dryocstream::{DryocStream, Tag};
